@@ -277,10 +277,11 @@ VERUS = {
                  desc='the raw iterator core on extracted text, control pointers and buckets kept as indices into an arbitrary table (any power-of-two size, both widths): RawIterRange::new (yields exactly the FULL buckets of its range), RawIterRange::next_impl in checked and unchecked mode (returns the smallest remaining FULL bucket, consumes exactly it, None only when nothing is left, every group load aligned and in bounds, terminates), RawIter::next (items counts exactly what is left; None iff items == 0), RawIterRange::split (the two halves partition the remaining buckets, both again well-formed), RawIterRange::fold_impl (the closure is called on exactly the remaining FULL buckets, ascending, each once, accumulator threaded), FullBucketsIndices::next_impl / next (same contract over bucket indices; with lemma_min_is_next_enum this is the ascending enumeration that unit resize assumes); RawIter::drop_elements and RawTableInner::drop_elements (when the element type needs dropping and elements remain, exactly the remaining FULL buckets are dropped, ascending, each once; otherwise none); lemma L8: the leaves of any split tree yield every bucket of the root exactly once',
                  paired={}),
     'arith': dict(props=['C17', 'C08', 'C12', 'C13'], tier='quick',
-                  desc='capacity / layout / probe-step arithmetic on extracted text, and the probe-cycle theorem (triangular numbers are distinct modulo 2^g; k calls of move_next reach (start + W*k(k+1)/2) mod n; the first n/W positions are pairwise different and group-aligned), layout containment L7 over the contract of calculate_layout_for (element ranges below the control bytes, pairwise disjoint, aligned for T; control bytes end where the allocation ends), all inputs, all table sizes, both group widths',
+                  desc='capacity / layout / probe-step arithmetic on extracted text (incl. TableLayout::new: ctrl_align is a power of two, at least the group width and at least the element alignment), and the probe-cycle theorem (triangular numbers are distinct modulo 2^g; k calls of move_next reach (start + W*k(k+1)/2) mod n; the first n/W positions are pairwise different and group-aligned), layout containment L7 over the contract of calculate_layout_for (element ranges below the control bytes, pairwise disjoint, aligned for T; control bytes end where the allocation ends), all inputs, all table sizes, both group widths',
                   # Verus function -> the complete CBMC obligation proving the same contract (used for the
                   # brittleness exception and to search for a failing input)
                   paired={'capacity_to_buckets': 'h_capacity_to_buckets',
+                          'TableLayout::new': 'h_table_layout_new',
                           'bucket_mask_to_capacity': 'h_bucket_mask_to_capacity',
                           'TableLayout::calculate_layout_for': 'h_calculate_layout_for',
                           'ProbeSeq::move_next': 'h_move_next',
